@@ -54,8 +54,9 @@ func (m *MethodScope) resolveVarNameConflict(suggested string) string {
 		}
 
 		if n == 1 {
-			conflict, _ := m.searchVar(suggested)
-			conflict.Name += "1"
+			if conflict, ok := m.searchVar(suggested); ok {
+				conflict.Name += "1"
+			}
 			m.conflicted[suggested] = true
 			n++
 		}
